@@ -478,6 +478,10 @@ class HttpServer:
                 return
             if self._server is not None:
                 self._server.shutdown()
+                self._server.server_close()
+            if self._main_thread is not None:
+                self._main_thread.join()
+                self._main_thread = None
             logger.info("HTTP server has been shutdown.")
             self._running = False
 
